@@ -1,4 +1,5 @@
 import CookModel.Num.Number
+import CookModel.Gen.Consts
 /-
   Model of the recipe data types of src/model.rs, src/quantity.rs (Quantity, ScalableValue),
   src/parser/model.rs (Modifiers).  Text is `List Char`.
@@ -28,11 +29,11 @@ structure Modifiers where
 deriving Repr, Inhabited, DecidableEq
 
 namespace Modifiers
-def RECIPE : Nat := 1
-def REF : Nat := 2
-def HIDDEN : Nat := 4
-def OPT : Nat := 8
-def NEW : Nat := 16
+def RECIPE : Nat := Cook.Gen.MOD_RECIPE
+def REF : Nat := Cook.Gen.MOD_REF
+def HIDDEN : Nat := Cook.Gen.MOD_HIDDEN
+def OPT : Nat := Cook.Gen.MOD_OPT
+def NEW : Nat := Cook.Gen.MOD_NEW
 def empty : Modifiers := ⟨0⟩
 def contains (m : Modifiers) (flag : Nat) : Bool := (m.bits &&& flag) == flag
 def insert (m : Modifiers) (flag : Nat) : Modifiers := ⟨m.bits ||| flag⟩
